@@ -1,7 +1,7 @@
 """Per-property check pipelines. Each function receives a vlib.Check, runs the
 TLC model(s) of the property and the conformance binding, and records
 mismatches through ck.mismatch()."""
-import json, os, random
+import json, os, random, hashlib, glob
 import vlib
 from vlib import tlc, gbv, rundir, ToolError
 
@@ -234,16 +234,31 @@ def split_trace(path, maxlines):
 
 
 def gen_sharded(ck, module, base, shards, extra_env=None, timeout=1800):
-    """Run a Gen_* exporter in `shards` parallel TLC processes; returns file list."""
-    files = [os.path.join(rundir(), "%s_%d.ndjson" % (base, i)) for i in range(shards)]
+    """Run a Gen_* exporter in parallel TLC processes; returns the file list. The output is a function
+    of the specification and the parameters only, so it is cached under out/gencache keyed by their hash
+    (nothing from /repo enters it)."""
+    shards = min(shards, 12)
+    key = hashlib.sha256((vlib.spec_hash() + module + json.dumps(extra_env or {}, sort_keys=True) + str(shards)).encode()).hexdigest()[:24]
+    cdir = os.path.join(vlib.OUT, "gencache", key)
+    files = [os.path.join(cdir, "%s_%d.ndjson" % (base, i)) for i in range(shards)]
+    if os.path.exists(os.path.join(cdir, "done")) and all(os.path.exists(f) for f in files):
+        ck.tlc_runs.append({"module": module, "shards": shards, "cached": True})
+        return files
+    os.makedirs(cdir, exist_ok=True)
     jobs = []
     for i, f in enumerate(files):
         env = {"OUT": f, "SHARD": i, "SHARDS": shards}
         if extra_env:
             env.update(extra_env)
-        jobs.append(dict(module=module, env=env, timeout=timeout, xmx="2g"))
+        jobs.append(dict(module=module, env=env, timeout=timeout, xmx="2g", light=True))
     rs = vlib.tlc_parallel(jobs)
     ck.tlc_runs.append({"module": module, "shards": shards, "wall_s": round(max(r.wall for r in rs), 2)})
+    open(os.path.join(cdir, "done"), "w").write("ok")
+    # keep the cache small: drop all but the 24 most recent entries
+    ents = sorted(glob.glob(os.path.join(vlib.OUT, "gencache", "*")), key=os.path.getmtime)
+    for e in ents[:-24]:
+        import shutil
+        shutil.rmtree(e, ignore_errors=True)
     return files
 
 
@@ -275,7 +290,7 @@ def c07(ck):
     recs = replay_files("irq", files)
     summ = [r for r in recs if r.get("kind") == "summary"]
     total = sum(s["cases"] for s in summ)
-    if len(summ) != 16 or total != 552960:
+    if len(summ) != len(files) or total != 552960:
         raise ToolError("dispatch replay incomplete: %d summaries, %d cases" % (len(summ), total))
     ck.count(sum(s["executions"] for s in summ))
     ck.traces += total
@@ -334,7 +349,7 @@ def record_and_validate_machine(ck, scenarios, tag, jit=False, shards=8, cold=Fa
 
 
 def validate_traces(ck, files, module, tag, jit=False):
-    jobs = [dict(module=module, env={"TRACE": tp}, dfs=True, check=False, timeout=3000, xmx="3g") for tp in files]
+    jobs = [dict(module=module, env={"TRACE": tp}, dfs=True, check=False, timeout=3000, xmx="3g", light=len(files) > 3) for tp in files]
     rs = vlib.tlc_parallel(jobs)
     allok = True
     for tp, r in zip(files, rs):
@@ -430,7 +445,7 @@ def c12(ck):
             kind = "mbc1" if m["t"] in (1, 2, 3) else ("mbc3" if m["t"] in (17, 18, 19) else "rom")
             ck.mismatch(dict(m, controller=kind), "%s-%s-mode%s" % (m["kind"], kind, m["pre"]["mode"]))
     truncated = any(s.get("truncated") for s in summ)
-    if not truncated and (len(summ) != 16 or sum(s["cases"] for s in summ) != ncases or ncases != 48432):
+    if not truncated and (len(summ) != len(files) or sum(s["cases"] for s in summ) != ncases or ncases != 48432):
         raise ToolError("controller replay incomplete")
     ck.count(sum(s["transitions"] for s in summ))
     ck.traces += sum(s["transitions"] for s in summ)
@@ -531,3 +546,249 @@ def c10(ck):
     ck.sample({"history_excerpt": head_lines(tr, 6)[1:]})
     for pth in (split_trace_init(tr, 50000) if thorough else [tr]):
         trace_validate(ck, "Trace_Machine", pth, n, "bus-history")
+
+
+# ------------------------------------------------- instruction-level family
+CONTROL_OPS = ({0x10, 0x76, 0xF3, 0xFB, 0xC3, 0xE9, 0xCD, 0xC9, 0xD9, 0x18, 0x20, 0x28, 0x30, 0x38, 0xC0, 0xC8, 0xD0, 0xD8,
+                0xC2, 0xCA, 0xD2, 0xDA, 0xC4, 0xCC, 0xD4, 0xDC, 0xC5, 0xD5, 0xE5, 0xF5, 0xC1, 0xD1, 0xE1}
+               | {0xC7 + 8 * i for i in range(8)})
+
+
+def owner_spec_interp(rec):
+    """Which property a specification-vs-interpreter mismatch belongs to: control flow, length,
+    timing and stack transfers are C06; data results and flags are C05."""
+    fields = set(rec.get("fields", []))
+    if rec.get("op") in CONTROL_OPS or fields <= {"pc", "sp", "cyc", "st", "panic"}:
+        return "C06"
+    return "C05"
+
+
+def owner_pair(rec):
+    return "C02" if set(rec.get("fields", [])) <= {"cyc"} else "C01"
+
+
+def instr_cases(ck, family, flags, shards=16, extra=0):
+    env = {"FAMILY": family, "FLAGS": flags, "EXTRA": extra}
+    files = gen_sharded(ck, "Gen_Instr", "gi_" + family, shards, extra_env=env)
+    return files
+
+
+def run_instr_replay(ck, files, pair):
+    recs = replay_files("instr", files, extra=([] if pair else ["--no-pair"]), par=16)
+    summ = [r for r in recs if r.get("kind") == "summary"]
+    if len(summ) != len(files):
+        raise ToolError("instruction replay incomplete")
+    return recs, sum(s["cases"] for s in summ), sum(s["pair_cases"] for s in summ)
+
+
+def alu_sweep(ck, pair, deep):
+    """Complete-table sweep; returns (records, evals, pair_evals)."""
+    tp = os.path.join(rundir(), "alu.json")
+    if not os.path.exists(tp):
+        g = tlc("Gen_Alu", env={"OUT": tp}, timeout=900)
+        ck.add_tlc("Gen_Alu", g, mc=False)
+    from concurrent.futures import ThreadPoolExecutor
+    n = 16
+    def one(i):
+        return gbv(["alu-sweep", "--tables", tp, "--shard", i, "--shards", n] + (["--pair"] if pair else []) + (["--deep"] if deep else []), timeout=7200)
+    vlib.build_harness(False)
+    with ThreadPoolExecutor(max_workers=n) as ex:
+        outs = list(ex.map(one, range(n)))
+    recs = [r for o in outs for r in o]
+    summ = [r for r in recs if r.get("kind") == "summary"]
+    if len(summ) != n:
+        raise ToolError("ALU sweep incomplete")
+    return recs, sum(s["evals"] for s in summ), sum(s["pair_evals"] for s in summ)
+
+
+def thm_alu(ck):
+    r = tlc("Thm_Alu", timeout=1800)
+    ck.add_tlc("Thm_Alu", r, mc=False)
+
+
+@prop("C05")
+def c05(ck):
+    thorough = ck.tier == "thorough"
+    ck.rule = ("complete data-operation tables of SM83Alu.tla exported by TLC (Gen_Alu) swept through interpreter::run_next_op: "
+               "all (A, operand, F) for every 8-bit binary form with register, (HL) and immediate operands, all (value, F) for "
+               "unary/CB forms on every register and (HL), all 65536 values for INC/DEC rr, all 65536 x 256 for ADD SP,e and "
+               "LD HL,SP+e, ADD HL,rr on all low-byte pairs x high-byte classes (all high bytes in the thorough tier), all "
+               "65536 stack words for POP AF; untouched registers randomised and checked; plus TLC-generated boundary cases "
+               "(Gen_Instr); every state is a distinct case")
+    thm_alu(ck)
+    mc = tlc("MC_Cpu", workers=8, coverage=True, timeout=1800)
+    ck.add_tlc("MC_Cpu", mc)
+    recs, evals, _ = alu_sweep(ck, pair=False, deep=thorough)
+    ck.count(evals)
+    ck.nontrivial_count += evals
+    ck.traces += evals
+    ck.exhaustive = True
+    for m in recs:
+        if m.get("kind") == "spec-interp":
+            ck.mismatch(m, "alu-" + m["label"])
+    files = instr_cases(ck, "lattice", 16 if thorough else 4, extra=2 if thorough else 0)
+    recs, n, _ = run_instr_replay(ck, files, pair=False)
+    ck.count(n)
+    ck.sample(head_lines(files[0], 1)[0])
+    for m in recs:
+        if m.get("kind") == "spec-interp" and owner_spec_interp(m) == "C05":
+            ck.mismatch(m, "case-op%02x-%s" % (m["op"], "-".join(m["fields"][:3])))
+        if m.get("kind") == "crash" and m.get("op") not in CONTROL_OPS:
+            ck.mismatch(m, "crash-op%02x" % m["op"])
+
+
+@prop("C06")
+def c06(ck):
+    thorough = ck.tier == "thorough"
+    ck.rule = ("decode table of SM83.tla for all 512 encodings exported by TLC (Gen_Decode): defined, length, machine cycles in "
+               "all 16 flag states, block end - against decoder::decode over operand bytes, Op::is_block_end and what "
+               "run_next_op does to ip/cycles; the eleven undefined opcodes must be refused by both engines; TLC-generated "
+               "control-flow/stack cases over PC/SP boundary lattices and every JR displacement at both ends of the address "
+               "space (Gen_Instr); each generated case is distinct")
+    mc = tlc("MC_Cpu", workers=8, coverage=True, timeout=1800)
+    ck.add_tlc("MC_Cpu", mc)
+    tp = os.path.join(rundir(), "decode.json")
+    g = tlc("Gen_Decode", env={"OUT": tp})
+    ck.add_tlc("Gen_Decode", g, mc=False)
+    recs = gbv(["decode", "--table", tp])
+    summ = [r for r in recs if r.get("kind") == "summary"]
+    if not summ or summ[0]["rows"] != 512:
+        raise ToolError("decode replay incomplete")
+    ck.count(summ[0]["checks"])
+    ck.nontrivial_count += 512
+    for m in recs:
+        if m.get("kind") == "mismatch":
+            ck.mismatch(m, "decode-op%02x-%s" % (m["op"], m["bad"][0]["what"]))
+    total = 0
+    for fam, flags in (("lattice", 16 if thorough else 4), ("jr", 4)):
+        files = instr_cases(ck, fam, flags, extra=2 if (thorough and fam == "lattice") else 0)
+        recs, n, _ = run_instr_replay(ck, files, pair=False)
+        total += n
+        if fam == "jr":
+            ck.sample(head_lines(files[0], 1)[0])
+        for m in recs:
+            if m.get("kind") == "spec-interp" and owner_spec_interp(m) == "C06":
+                ck.mismatch(m, "case-op%02x-%s" % (m["op"], "-".join(m["fields"][:3])))
+            if m.get("kind") == "crash" and m.get("op") in CONTROL_OPS:
+                ck.mismatch(m, "crash-op%02x" % m["op"])
+    ck.count(total)
+    ck.nontrivial_count += total
+    ck.traces += total
+    ck.exhaustive = True
+    # known finding: instructions straddling the end of a fetch region
+    import gbprog
+    scs = gbprog.straddle_programs()
+    files = record_and_validate_machine(ck, scs, "c06straddle", jit=False, shards=2)
+
+
+def pair_traces(ck, scenarios, tag, mode, owner, shards=8, classes=("C01", "C02")):
+    """Run the same scenarios in the build without jit and the jit build, compare the traces record
+    by record (the property is the pair equality); every differing history is nominated, then both
+    traces are validated against Machine.tla by TLC to say which engine left the specification."""
+    ss = [dict(s, mode=mode) for s in scenarios]
+    fi = record_and_validate_machine(ck, ss, tag + "_i", jit=False, shards=shards, validate=False)
+    fj = record_and_validate_machine(ck, ss, tag + "_j", jit=True, shards=shards, validate=False)
+    ndiff = 0
+    CYCLE_KEYS = ("clk", "cpu")
+    CYCLE_O = ("div", "tima", "q", "pend", "iflag", "dact", "doff", "dpage")
+    for a, b in zip(fi, fj):
+        with open(a) as fa, open(b) as fb:
+            cur_id, done_ids = None, set()
+            la, lb = fa.readlines(), fb.readlines()
+            if len(la) != len(lb):
+                ck_owner = "C01"
+            for x, y in zip(la, lb):
+                if '"ev":"init"' in x:
+                    cur_id = json.loads(x)["id"]
+                    continue
+                if x == y or cur_id in done_ids:
+                    continue
+                rx, ry = json.loads(x), json.loads(y)
+                # classify: only time-derived fields differ -> cycles (C02); anything else -> effect (C01)
+                def strip(r):
+                    r = dict(r)
+                    for k in CYCLE_KEYS:
+                        r.pop(k, None)
+                    if "o" in r:
+                        r["o"] = {k: v for k, v in r["o"].items() if k not in CYCLE_O}
+                    return r
+                cls = "C02" if strip(rx) == strip(ry) else "C01"
+                done_ids.add(cur_id)
+                if cls == owner:
+                    ndiff += 1
+                    ck.mismatch({"kind": "pair-trace", "class": cls, "scenario": cur_id, "interp": rx, "jit": ry,
+                                 "traces": [a, b]}, "pair-%s-%s" % (tag, cls))
+    ck.traces += len(scenarios)
+    # diagnosis / binding to the specification
+    ok_i = validate_traces(Diag(ck), fi, "Trace_Machine", tag + "_i", False)
+    ok_j = validate_traces(Diag(ck), fj, "Trace_Machine", tag + "_j", True)
+    ck.extra.setdefault("spec_conformance", {})[tag] = {"interp": ok_i, "jit": ok_j}
+    return ndiff
+
+
+class Diag:
+    """A view of a Check that counts TLC work but turns rejections into notes instead of violations:
+    used where the property's verdict is the pair equality and the specification is the diagnosis."""
+    def __init__(self, ck):
+        self.ck = ck
+        self.prop = ck.prop
+    def add_tlc(self, *a, **k):
+        self.ck.add_tlc(*a, **k)
+    def mismatch(self, rec, name=None):
+        self.ck.extra.setdefault("diagnosis", []).append({"name": name, "line": rec.get("line", "")[:400]})
+        print("NOTE %s: %s deviates from Machine.tla (diagnosis only): %s" % (self.ck.prop, name, rec.get("line", "")[:200]))
+        return False
+
+
+def c01_c02(ck, owner):
+    import gbprog
+    thorough = ck.tier == "thorough"
+    rng = random.Random(vlib.seed() + 1)
+    # (a) complete register-form tables through both engines
+    recs, evals, pevals = alu_sweep(ck, pair=True, deep=thorough)
+    ck.count(pevals)
+    ck.nontrivial_count += pevals
+    for m in recs:
+        if m.get("kind") == "pair" and owner == "C01":
+            ck.mismatch(m, "alu-" + m["label"])
+        if m.get("kind") == "pair-cycles" and owner == "C02":
+            ck.mismatch(m, "alu-cycles-" + m["label"])
+    # (b) TLC-generated boundary cases, every opcode x flag states, both engines on the one-instruction block
+    for fam, flags in (("lattice", 16), ("jr", 4)):
+        files = instr_cases(ck, fam, flags, extra=2 if (thorough and fam == "lattice") else 0)
+        recs, n, npair = run_instr_replay(ck, files, pair=True)
+        ck.count(npair)
+        ck.nontrivial_count += npair
+        ck.traces += npair
+        if fam == "lattice":
+            ck.sample(head_lines(files[1], 1)[0])
+        for m in recs:
+            if m.get("kind") == "pair" and owner_pair(m) == owner:
+                ck.mismatch(m, "case-op%02x-%s" % (m["op"], "-".join(m["fields"][:3])))
+            if m.get("kind") == "crash" and owner == "C01":
+                ck.mismatch(m, "crash-op%02x" % m["op"])
+    # (c) random straight-line blocks with every terminator kind at boundary placements
+    n = 40000 if thorough else 3000
+    pair_traces(ck, gbprog.random_blocks(n, rng), "blocks", "block", owner, shards=12)
+
+
+@prop("C01")
+def c01(ck):
+    ck.rule = ("pair equality interpreter = translated code: complete (A, operand, F) tables for every register/(HL)/immediate "
+               "data opcode through both engines; TLC-generated boundary cases for all 500 opcodes x 16 flag states x pointer/"
+               "SP/PC lattices and all JR displacements; random straight-line blocks of 1..32 instructions ending in every "
+               "terminator kind at ROM placements incl. bank boundaries, compared on registers, status, ordered bus writes, "
+               "memory and device state; both engines' block traces also validated against Machine.tla (diagnosis)")
+    mc = tlc("MC_Cpu", workers=8, coverage=True, timeout=1800)
+    ck.add_tlc("MC_Cpu", mc)
+    c01_c02(ck, "C01")
+
+
+@prop("C02")
+def c02(ck):
+    ck.rule = ("pair equality of machine cycles: every defined opcode x all 16 flag states (both outcomes of every conditional) "
+               "as one-instruction blocks through both engines (TLC-generated cases), the complete operand tables, and sums "
+               "over random multi-instruction blocks incl. the device clocks they deliver")
+    mc = tlc("MC_Cpu", workers=8, coverage=True, timeout=1800)
+    ck.add_tlc("MC_Cpu", mc)
+    c01_c02(ck, "C02")
